@@ -64,6 +64,33 @@ func H_C18_Seq() {
 	zzvrt.Cover("hub.end")
 }
 
+// H_C18_Pending: k state reports arrive while the notification of an earlier one is still pending (its 500 ms delay
+// has not elapsed); afterwards all delays elapse (closures in creation order). If the state the hub reports differs from
+// what the application last saw, the application must have been told.
+func H_C18_Pending() {
+	e := newHubEnv()
+	h := e.h
+	svc := e.addService(skiA, "A")
+	initial := svc.ConnectionStateDetail().State()
+	var last model.ShipState
+	for i := 0; i < 2; i++ {
+		last = symState("st")
+		h.HandleShipHandshakeStateUpdate(skiA, last)
+	}
+	zzvrt.RunSpawned("HandleShipHandshakeStateUpdate$1")
+	want := h.mapShipMessageExchangeState(last.State, skiA)
+	if last.Error != nil {
+		want = api.ConnectionStateError
+	}
+	zzvrt.Assert(h.PairingDetailForSki(skiA).State() == want, "C18.query-differs-from-last-report")
+	seen := int(initial)
+	if got, ok := lastDetail(e); ok {
+		seen = got
+	}
+	zzvrt.Assert(seen == int(want), "C18.application-never-told-the-current-state")
+	zzvrt.Cover("hub.end")
+}
+
 // H_C18_Order: two state changes, both notification goroutines' delays have elapsed, every scheduling of the two:
 // the newest state is what the application has seen last.
 func H_C18_Order() {
